@@ -18,6 +18,9 @@ import time
 ROOT = os.path.dirname(os.path.dirname(os.path.abspath(__file__)))
 PY = os.path.join(ROOT, '.venv', 'bin', 'python')
 NPROC = int(os.environ.get('VERIF_NPROC', '16'))
+# scratch redirection used only by tools/try_mutant.sh so that trial runs do not clobber the committed evidence
+EVID_DIR = os.environ.get('VERIF_EVIDENCE_DIR', os.path.join(ROOT, 'evidence'))
+REPLAY_DIR = os.environ.get('VERIF_REPLAY_DIR', os.path.join(ROOT, 'replay'))
 
 
 class Plan:
@@ -255,8 +258,8 @@ def execute(plan, tier, seed, batch_seconds=60.0):
                 counts['refuted'] += 1
                 h = hashlib.sha1(json.dumps([tid, replay_obj.get('args'), replay_obj.get('kwargs')], sort_keys=True,
                                             default=repr).encode()).hexdigest()[:10]
-                os.makedirs(os.path.join(ROOT, 'replay'), exist_ok=True)
-                rpath = os.path.join(ROOT, 'replay', f'{plan.prop}-{h}.json')
+                os.makedirs(REPLAY_DIR, exist_ok=True)
+                rpath = os.path.join(REPLAY_DIR, f'{plan.prop}-{h}.json')
                 with open(rpath, 'w') as fh:
                     json.dump(replay_obj, fh, indent=1, default=repr)
                 violations.append({'task': tid, 'replay': rpath, 'info': info, 'meta': meta,
@@ -292,8 +295,8 @@ def execute(plan, tier, seed, batch_seconds=60.0):
         cov.setdefault('disagreements_checked', len(violations) + len(known_hits) + len(spurious))
     evidence = {'property_id': plan.prop, 'tier': tier, 'seed': seed, 'level': plan.level, 'coverage': cov,
                 'assumptions': plan.assumptions, 'wall_s': round(wall, 2), 'violations': len(violations)}
-    os.makedirs(os.path.join(ROOT, 'evidence'), exist_ok=True)
-    with open(os.path.join(ROOT, 'evidence', f'{plan.prop}.json'), 'w') as fh:
+    os.makedirs(EVID_DIR, exist_ok=True)
+    with open(os.path.join(EVID_DIR, f'{plan.prop}.json'), 'w') as fh:
         json.dump(evidence, fh, indent=1, default=repr)
 
     # report
